@@ -237,13 +237,18 @@ def gen_measurements(rng, st, tag, env=False):
     if st['kind'] == 'finite':
         if any(s[1].get('conserve', s[1].get('cons_N')) not in (None, 'None') for s in sites):
             ms.append({'f': 'prob_charge', 'bond': rng.randint(1, L - 1) if L > 1 else 0})
-        for _ in range(3):
+        for _ in range(4):
             m = {'f': 'sample', 'seed': rng.randrange(10 ** 6), 'complex_amplitude': rng.random() < 0.6}
             r = rng.random()
             if r < 0.3 and L >= 3:
                 m['first'], m['last'] = 1, rng.randint(1, L - 1)
-            if rng.random() < 0.4 and homog and cls[0] in ('SpinHalfSite', 'SpinSite'):
-                m['ops'] = [rng.choice(['Sz'] + (['Sx', 'Sy'] if sites[0][1].get('conserve') == 'None' else []))]
+            if rng.random() < 0.5 and homog and cls[0] in ('SpinHalfSite', 'SpinSite'):
+                pool = ['Sz'] + (['Sx', 'Sy'] if sites[0][1].get('conserve') == 'None' else [])
+                # lists of several different operators: ops[(i - first_site) % len(ops)] acts on site i
+                m['ops'] = [rng.choice(pool) for _ in range(rng.randint(1, 3))]
+                if L >= 3 and rng.random() < 0.7:
+                    m['first'] = rng.randint(1, L - 2)
+                    m['last'] = rng.randint(m['first'], L - 1)
             ms.append(m)
     elif st['kind'] == 'infinite':
         ms.append({'f': 'sample', 'seed': rng.randrange(10 ** 6), 'first': 0, 'last': L, 'complex_amplitude': True})
